@@ -132,6 +132,16 @@ pub fn walk_plain(sc: &Scenario, hist: &[Ev], opts: &WalkOpts) -> Vec<Mismatch> 
     let mut out = vec![];
     // all tokens, to diagnose foreign content
     let all_tokens: Vec<&String> = sc.plan.by_token.keys().collect();
+    // operations abandoned from another handle while in flight: their callers must be released with an error
+    let abandoned: std::collections::BTreeSet<&String> = sc
+        .clients
+        .iter()
+        .flat_map(|c| c.steps.iter())
+        .filter_map(|s| match s {
+            Step::Op { op: OpSpec::Abandon(crate::scenario::IdRef::Token(t)), .. } if t.starts_with('v') => Some(t),
+            _ => None,
+        })
+        .collect();
     for (c, cs) in sc.clients.iter().enumerate() {
         let mut dropped = false;
         let mut streams: BTreeMap<usize, Option<(StreamModel, String)>> = BTreeMap::new();
@@ -186,6 +196,22 @@ pub fn walk_plain(sc: &Scenario, hist: &[Ev], opts: &WalkOpts) -> Vec<Mismatch> 
                 Step::Op { token, op, cancel_after_polls, .. } => {
                     if dropped {
                         check(Some(Ret::Skipped), false, token, false);
+                        continue;
+                    }
+                    if abandoned.contains(token) {
+                        match actual {
+                            Some(Ret::Err(_)) => {}
+                            other => out.push(Mismatch {
+                                client: c,
+                                step: ix,
+                                what: "abandoned-in-flight",
+                                expected: "an error (the operation was abandoned while its caller waited)".into(),
+                                actual: clip(&format!("{:?}", other)),
+                                foreign: false,
+                                missing: other.is_none(),
+                                ctx: String::new(),
+                            }),
+                        }
                         continue;
                     }
                     let exp = match op {
@@ -396,7 +422,9 @@ pub fn lifecycle_class(sc: &Scenario, hist: &[Ev], token: &str) -> String {
                         OpSpec::Unbind => "unbind",
                         _ => "single",
                     };
+                    let timed_out = matches!(rets.get(&(cidx, ix)).map(|x| x.0), Some(Ret::Err(crate::world::ErrC::Timeout)));
                     let how = match sc.plan.by_token.get(token) {
+                        _ if timed_out => "timed-out",
                         Some(ReplyPlan::Silent) if mods.timeout_ms.is_some() => "timed-out",
                         Some(ReplyPlan::Silent) => "in-flight",
                         Some(ReplyPlan::Paged) => "paged",
@@ -585,6 +613,33 @@ pub fn check_c05_blackbox(sc: &Scenario, rr: &RunResult) -> Vec<Violation> {
                     let cur = end_of.get(tok).copied();
                     if cur.map_or(true, |c| c > e.seq) {
                         end_of.insert(tok.clone(), e.seq);
+                    }
+                }
+            }
+        }
+    }
+    // ... and once an AbandonRequest naming its ID has been sent
+    {
+        let mut id_of: BTreeMap<String, i64> = BTreeMap::new();
+        for e in &rr.hist {
+            if let EvKind::SrvRecv { id, token, .. } = &e.kind {
+                id_of.entry(token.clone()).or_insert(*id);
+            }
+        }
+        for (arrival, q) in rr.requests.iter().enumerate() {
+            if let crate::msg::ReqOp::Abandon { id } = &q.op {
+                let seq = rr.hist.iter().find_map(|e| match &e.kind {
+                    EvKind::SrvRecv { arrival: a, .. } if *a == arrival => Some(e.seq),
+                    _ => None,
+                });
+                if let Some(seq) = seq {
+                    for (tok, tid) in &id_of {
+                        if tid == id {
+                            let cur = end_of.get(tok).copied();
+                            if cur.map_or(true, |c| c > seq) {
+                                end_of.insert(tok.clone(), seq);
+                            }
+                        }
                     }
                 }
             }
@@ -885,7 +940,11 @@ pub fn walk_timed(sc: &Scenario, rr: &RunResult) -> Vec<TimedMismatch> {
                     let Some(t0) = t_inv else { continue };
                     let (n_items, has_done) = match sc.plan.by_token.get(token) {
                         Some(ReplyPlan::Items { items, done, .. }) => (items.len(), done.is_some()),
-                        _ => (0, false),
+                        _ => {
+                            // paged searches are modelled by the C16 lane; here only their residue counts
+                            streams.insert(*slot, None);
+                            continue;
+                        }
                     };
                     streams.insert(
                         *slot,
@@ -1560,6 +1619,7 @@ pub fn check_c02(sc: &Scenario, rr: &RunResult) -> Vec<Violation> {
         }
     }
     let rets = returns_by_step(&rr.hist);
+    let invs = invokes_by_step(&rr.hist);
     let mut matched_arrivals: std::collections::BTreeSet<usize> = Default::default();
     for (c, cs) in sc.clients.iter().enumerate() {
         let mut ms = ModState::default();
@@ -1596,14 +1656,36 @@ pub fn check_c02(sc: &Scenario, rr: &RunResult) -> Vec<Violation> {
             let skip_mods = std::mem::replace(&mut uncertain_mods, false);
             let exp = req_expect(&op_for_model, eff.opts.as_ref(), |s| s.filter.clone());
             // by token; requests without a token of their own (abandon, unbind, SASL bind) by the call's message ID
+            // (IDs can recur within a run: only a request that arrived while the call was in progress counts)
+            let inv_seq = invs.get(&(c, ix)).map(|x| x.1).unwrap_or(0);
             let by_id: Option<(usize, i64, Vec<String>)> = if *last_id != 0 {
                 rr.hist.iter().find_map(|e| match &e.kind {
-                    EvKind::SrvRecv { arrival, id, strict, .. } if *id == *last_id as i64 => Some((*arrival, *id, strict.clone())),
+                    EvKind::SrvRecv { arrival, id, strict, kind, .. } if *id == *last_id as i64 && e.seq > inv_seq && kind == op_kind_s => Some((*arrival, *id, strict.clone())),
                     _ => None,
                 })
             } else {
                 None
             };
+            // abandon requests carry no token and their message IDs may recur: match them by what they name
+            let by_target: Option<(usize, i64, Vec<String>)> = if let OpSpec::Abandon(r) = &op_for_model {
+                let target = match r {
+                    crate::scenario::IdRef::Raw(x) => *x as i64,
+                    crate::scenario::IdRef::Token(t) => recv.get(t).and_then(|v| v.first()).map(|x| x.1).unwrap_or(-1),
+                };
+                rr.requests.iter().enumerate().find_map(|(a, q)| match &q.op {
+                    crate::msg::ReqOp::Abandon { id } if *id == target && !matched_arrivals.contains(&a) && q.id == *last_id as i64 => {
+                        let strict = rr.hist.iter().find_map(|e| match &e.kind {
+                            EvKind::SrvRecv { arrival, strict, .. } if *arrival == a => Some(strict.clone()),
+                            _ => None,
+                        });
+                        Some((a, q.id, strict.unwrap_or_default()))
+                    }
+                    _ => None,
+                })
+            } else {
+                None
+            };
+            let by_id = if matches!(op_for_model, OpSpec::Abandon(_)) { by_target.or(by_id) } else { by_id };
             let got = recv.get(token).and_then(|v| v.first()).or(by_id.as_ref());
             match exp {
                 ReqExpect::Refused(class) => {
@@ -2392,6 +2474,108 @@ pub fn check_c17(sc: &Scenario, rr: &RunResult) -> Vec<Violation> {
             v.push(Violation::new("C17", "C17.timeout", format!("no-timeout-error/{beh}"), format!("silent peer and conn_timeout={t}ms: {}", o.outcome)));
         } else if o.t_ms.abs_diff(t) > 1 {
             v.push(Violation::new("C17", "C17.timeout", format!("timeout-at-wrong-time/{beh}"), format!("silent peer and conn_timeout={t}ms: returned at t={}ms", o.t_ms)));
+        }
+    }
+    v
+}
+
+/// C04 on paged searches: a read-side fault at any point; entries delivered before it are returned in
+/// order, then the stream fails - it never reports a normal end unless everything arrived.
+pub fn check_c04_paged(sc: &Scenario, rr: &RunResult) -> Vec<Violation> {
+    use crate::scenario::Fault;
+    let mut v = vec![];
+    match rr.verdict {
+        crate::exec::Verdict::Done => {}
+        _ => {
+            v.push(Violation::new("C04", "C04.a", "hang/paged", "a call or the driver did not complete before the virtual-time watchdog"));
+            return v;
+        }
+    }
+    for (actor, msg, file) in panics(&rr.hist) {
+        v.push(Violation::new("C04", "C04.panic", format!("panic/{}/{}", short_file(&file), trunc(&msg, 60)), format!("{actor} panicked: {msg} ({file})")));
+    }
+    if !v.is_empty() {
+        return v;
+    }
+    let Some(pm) = &sc.plan.paging else { return v };
+    let at = sc.faults.iter().find_map(|f| match f {
+        Fault::EofAt { at } | Fault::ReadErrAt { at, .. } => Some(*at),
+        _ => None,
+    });
+    let at = at.unwrap_or(usize::MAX);
+    let ems = emission_ends(&rr.hist);
+    let rets = returns_by_step(&rr.hist);
+    for (c, cs) in sc.clients.iter().enumerate() {
+        let Some(Step::Open { token, .. }) = cs.steps.first() else { continue };
+        match rets.get(&(c, 0)).map(|x| x.0) {
+            Some(Ret::Opened) => {}
+            Some(Ret::Err(_)) => continue,
+            other => {
+                v.push(Violation::new("C04", "C04.b", "paged/open", format!("{:?}", other)));
+                continue;
+            }
+        }
+        // entries and final result that were fully delivered before the fault
+        let mut k = 0;
+        while k < pm.n && ems.get(&format!("{token}:page-entry{k}")).map_or(false, |r| r.1 <= at) {
+            k += 1;
+        }
+        let final_arrived = k == pm.n && ems.get(&format!("{token}:page-done@{}", pm.n)).map_or(false, |r| r.1 <= at) && {
+            // with an extra empty last page the final result is the second message of that name
+            let n = rr.hist.iter().filter(|e| matches!(&e.kind, EvKind::SrvEmit { label, .. } if *label == format!("{token}:page-done@{}", pm.n))).count();
+            !pm.extra_empty_last_page || n >= 2
+        };
+        let mut i = 0usize;
+        let mut ended = false;
+        let mut done = false;
+        for (six, st) in cs.steps.iter().enumerate().skip(1) {
+            let Some((ret, ..)) = rets.get(&(c, six)) else { continue };
+            match st {
+                Step::Next { .. } => {
+                    if ended || **ret == Ret::Skipped {
+                        continue;
+                    }
+                    if i < k {
+                        let e = crate::msg::RespOp::Entry { dn: format!("cn=e{i},{token}"), attrs: vec![("cn".into(), vec![format!("e{i}").into_bytes()])] };
+                        let want = Ret::Item(Some(model::item_expect(&e, &None)));
+                        if **ret != want {
+                            let sig = if matches!(ret, Ret::Err(_)) { "paged/error-although-entry-was-delivered" } else { "paged/wrong-entry" };
+                            v.push(Violation::new("C04", if matches!(ret, Ret::Err(_)) { "C04.c" } else { "C04.b" }, sig, format!("client {c} step {six}: entry {i} of {k} delivered before the fault at {at}: got {}", clip(&format!("{:?}", ret)))));
+                            ended = true;
+                        }
+                        i += 1;
+                    } else {
+                        ended = true;
+                        match ret {
+                            Ret::Err(_) => {
+                                if final_arrived {
+                                    v.push(Violation::new("C04", "C04.c", "paged/error-although-final-result-was-delivered", format!("client {c} step {six}")));
+                                }
+                            }
+                            Ret::Item(None) => {
+                                if final_arrived {
+                                    done = true;
+                                } else {
+                                    v.push(Violation::new("C04", "C04.b", "paged/normal-end-although-the-connection-was-lost", format!("client {c} step {six}: {k} of {} entries had been delivered before the fault at offset {at}, the final result had not; next() reported the end of the search", pm.n)));
+                                }
+                            }
+                            other => v.push(Violation::new("C04", "C04.b", "paged/value-that-was-not-received", format!("client {c} step {six}: {}", clip(&format!("{:?}", other))))),
+                        }
+                    }
+                }
+                Step::Finish { .. } => {
+                    if let Ret::Fin(r) = ret {
+                        if done {
+                            if r.rc != pm.final_rc || r.text != format!("{token}:page-done@{}", pm.n) {
+                                v.push(Violation::new("C04", "C04.b", "paged/finish-differs", format!("{:?}", r)));
+                            }
+                        } else if r.rc != 88 {
+                            v.push(Violation::new("C04", "C04.b", "paged/finish-reports-a-result-for-an-unfinished-search", format!("client {c} step {six}: {}", clip(&format!("{:?}", r)))));
+                        }
+                    }
+                }
+                _ => {}
+            }
         }
     }
     v
